@@ -305,12 +305,20 @@ pub fn run(seed: u64, ntraces: usize) {
                     let m = &msgs[0]; let mut d = Msg { chain: m.chain.clone(), id: m.id.clone(), src: m.src.clone(), contract: m.contract.clone(), ph: m.ph.clone() };
                     d.src.push(b'!'); msgs.push(d);
                 }
+                // one batch in four re-submits, unchanged, one or two messages that were approved before (nothing new in it): the proof is checked all the same
+                let resub = !g.sent.is_empty() && r.chance(1, 4);
+                if resub { let k = 1 + r.below(2) as usize; msgs = (0..k).map(|_| { let m = &g.sent[r.below(g.sent.len() as u64) as usize];
+                    Msg { chain: m.chain.clone(), id: m.id.clone(), src: m.src.clone(), contract: m.contract.clone(), ph: m.ph.clone() } }).collect(); }
                 let mut raw: Vec<u8> = msgs.iter().flat_map(|m| m.encode()).collect();
-                let mut mlabel = "batch";
+                let mut mlabel = if resub { "resubmitted" } else { "batch" };
                 if r.chance(1, 15) { raw.push(7); mlabel = "batch_trailing_byte"; }
                 if r.chance(1, 20) && !raw.is_empty() { raw.truncate(raw.len() - 1); mlabel = "batch_truncated"; }
                 let (slabel, set) = g.pick_set(&mut r);
+                // ... and mostly with a fully signed proof of a set that is expired, never registered, or the latest
+                let (slabel, set) = if resub && r.chance(2, 3) { let e = g.sets.len(); let ret = g.retention as usize;
+                    match r.below(3) { 0 if e > ret + 1 => ("expired", g.sets[e - 2 - ret].clone()), 1 if e > 0 => { let mut z = g.sets[e - 1].clone(); z.nonce[31] ^= 1; ("unregistered_nonce", z) }, _ => (slabel, set) } } else { (slabel, set) };
                 let variant = if r.chance(1, 2) { r.below(2) } else { r.below(23) };
+                let variant = if resub { variant % 2 } else { variant };
                 let G { pool, tab, domain, .. } = &mut g;
                 let p = build_proof(&mut r, pool, tab, &set, domain, 0, &raw, variant);
                 let caller = r.pick(&callers).clone();
